@@ -76,9 +76,14 @@ PRELUDE = r'''
 '''
 
 
+_native_ws = {}
+
+
 def make_native_ws(scratch):
     from kx.kani import cached_ws
-    return cached_ws('ws-native', scratch)
+    if scratch not in _native_ws:
+        _native_ws[scratch] = cached_ws('ws-native', scratch)
+    return _native_ws[scratch]
 
 
 def install(ws, gname):
@@ -120,8 +125,9 @@ def run_groups(prop, gnames, tier, scratch, only=None):
         if not tests:
             results.append(r)
             continue
-        filt = f'verif_enum_{gname}::'
-        cmd = ['cargo', 'test', '--offline', '-p', g['crate']] + list(g.get('cargo_target', ['--lib'])) + ['--', filt, '--nocapture', '--test-threads', '8']
+        # only the selected tests are run (libtest filters are substring matches: a name that is a prefix of another selects both, which is harmless)
+        filt = [f'verif_enum_{gname}::{t["name"]}' for t in tests]
+        cmd = ['cargo', 'test', '--offline', '-p', g['crate']] + list(g.get('cargo_target', ['--lib'])) + ['--'] + filt + ['--nocapture', '--test-threads', '8']
         env = dict(os.environ, CARGO_NET_OFFLINE='true', CARGO_TARGET_DIR=target_dir, RUST_BACKTRACE='0')
         t0 = time.time()
         tmo = max(t.get('timeout', 600) for t in tests) + 900
